@@ -50,6 +50,88 @@ def _b(x):
     return "TRUE" if x else "FALSE"
 
 
+# ---- mdconvert: chunked conversion = a reader-driven schedule of incremental writes (specs/Convert.tla) --------------------------
+CONV_CFG = """SPECIFICATION Spec
+CONSTANTS MaxN = %(MaxN)d
+ MaxChunk = %(MaxChunk)d
+ MaxStride = 3
+INVARIANT PrefixAlways
+INVARIANT CompleteAtEnd
+ACTION_CONSTRAINT Emit
+CHECK_DEADLOCK FALSE
+"""
+CONV_FORMATS = ["xtc", "trr", "dcd", "nc", "h5"]
+CONV_INDEX = {"all": slice(None), "first": 0, "last": -1, "tail": slice(1, None), "head": slice(None, -1), "even": slice(None, None, 2), "reverse": slice(None, None, -1)}
+CONV_TIME = {"xtc", "trr", "nc", "h5"}
+_conv_dir = None
+_QUIET = []
+
+
+def _conv_prepare(scratch, maxn):
+    global _conv_dir
+    _conv_dir = os.path.join(scratch, "conv")
+    os.makedirs(_conv_dir, exist_ok=True)
+    trajgen.set_shape(0)
+    trajgen.trajectory(1).save(os.path.join(_conv_dir, "top.pdb"))
+    for ext in CONV_FORMATS:
+        for n in range(1, maxn + 1):
+            for first in [0] + list(range(1, maxn + 1)):
+                p_ = os.path.join(_conv_dir, "in_%d_%d.%s" % (n, first, ext))
+                trajgen.rm(p_)
+                trajgen.trajectory(n, first=first).save(p_)
+
+
+def _convert(task):
+    """run mdconvert on the configuration and compare the output file with the selection Convert.tla expects"""
+    import argparse, contextlib, io, warnings
+    import mdtraj as md
+    from mdtraj.scripts import mdconvert
+    cfgc, ein, eout, k = task
+    warnings.simplefilter("ignore")
+    if not _QUIET:          # dcdplugin reports empty files on the C stderr
+        _QUIET.append(os.dup2(os.open(os.devnull, os.O_WRONLY), 2))
+    ns = cfgc["ns"]
+    inputs = [os.path.join(_conv_dir, "in_%d_0.%s" % (ns[0], ein))]
+    if len(ns) > 1:
+        inputs.append(os.path.join(_conv_dir, "in_%d_%d.%s" % (ns[1], ns[0], ein)))          # second file: frames ns[0] .. ns[0]+ns[1]-1
+    outp = os.path.join(_conv_dir, "out_%d.%s" % (k, eout))
+    trajgen.rm(outp)
+    ix = None if cfgc["index"] == "none" else CONV_INDEX[cfgc["index"]]
+    args = argparse.Namespace(input=inputs, output=outp, chunk=None if ix is not None else cfgc["chunk"], force=True, stride=cfgc["stride"], index=ix,
+                              atom_indices=None, topology=os.path.join(_conv_dir, "top.pdb"))
+    exp = [(f - 1) * ns[0] + p_ for f, p_ in cfgc["expect"]]            # frame ids encoded in the coordinates
+    try:
+        with contextlib.redirect_stdout(io.StringIO()), contextlib.redirect_stderr(io.StringIO()):
+            mdconvert.main(args, verbose=False)
+    except Exception as e:  # noqa
+        trajgen.rm(outp)
+        return None if not exp else "mdconvert raised %s: %s" % (type(e).__name__, str(e)[:100])
+    try:
+        if not exp and not os.path.exists(outp):
+            return None
+        r = md.load(outp, top=trajgen.topology())
+    except Exception as e:  # noqa
+        trajgen.rm(outp)
+        return None if not exp else "the converted file cannot be loaded: %s: %s" % (type(e).__name__, str(e)[:100])
+    finally:
+        pass
+    got = trajgen.frame_ids(r.xyz)
+    prob = None
+    if got != exp:
+        prob = "converted file holds frames %s, the selection is %s" % (got, exp)
+    elif exp and trajgen.atom_ids(r.xyz) != list(range(trajgen.NA)):
+        prob = "converted file scrambles the atoms"
+    else:
+        if not exp:
+            pass
+        elif ein in CONV_TIME and eout in CONV_TIME and not np.allclose(r.time, np.array(exp) * 2.0 + 1.0):
+            prob = "converted file holds times %s for frames %s" % (r.time.tolist(), exp)
+        elif r.unitcell_lengths is None or not np.allclose(r.unitcell_lengths[:, 0], 5.0 + 0.1 * np.array(exp), atol=2e-3) or not np.allclose(r.unitcell_angles, 90.0, atol=1e-2):
+            prob = "converted file does not hold the unit cells of the selected frames"
+    trajgen.rm(outp)
+    return prob
+
+
 def _arrays(ext, ids, s):
     na = NATOMS[s["natoms"]]
     sc = trajgen.scale_of(ext)
@@ -291,6 +373,28 @@ def run(ctx):
             cls = "%s: %s" % (t[0], pr.split(":")[0] if pr.startswith(("flushed", "child", "crashed")) else pr)
             ctx.discrepancy(_known_key(ctx, t, val), "%s [%s]%s: %s (loaded=%s)" % (t[0], hist_s, " SIGKILL" if t[2] else "", pr, val.get("loaded")),
                             dict(task=[t[0], t[1], t[2]], observed=val), cls=cls)
+    # ---- mdconvert ----
+    n_conv = 0
+    if not ctx.replay:
+        cm = dict(MaxN=5, MaxChunk=4) if ctx.thorough else dict(MaxN=4, MaxChunk=3)
+        rc = ctx.tlc("Convert", "Convert.cfg", workers=4, cfg_text=CONV_CFG % cm)
+        try:
+            _conv_prepare(ctx.scratch, cm["MaxN"])
+        except Exception as e:  # noqa
+            ctx.machinery_failure("cannot prepare conversion inputs: %r" % (e,))
+        ctasks = [(c, ein, eout, 0) for c in rc.tr for ein in CONV_FORMATS for eout in CONV_FORMATS]
+        if not ctx.thorough and len(ctasks) > 2500:
+            ctasks = stratified_sample(ctasks, lambda t: (t[1], t[2], t[0]["index"], len(t[0]["ns"])), 2500, ctx.rng)
+        ctasks = [(c, a, b, i) for i, (c, a, b, _) in enumerate(ctasks)]
+        n_conv = len(ctasks)
+        for tk, (st, val) in zip(ctasks, pool.run_tasks(_convert, ctasks, workers=16, timeout=120, batch=16)):
+            if st == "ok" and val is None:
+                continue
+            nfail += 1
+            msg = val if st == "ok" else "%s: %s" % (st, str(val)[:200])
+            ckey = "mdconvert:trr_index_read_at_eof" if (tk[1] == "trr" and tk[0]["index"] != "none" and msg.startswith("mdconvert raised ValueError: need at least one array")) else None
+            ctx.discrepancy(ckey, "mdconvert %s -> %s frames=%s chunk=%d stride=%d index=%s: %s" % (tk[1], tk[2], tk[0]["ns"], tk[0]["chunk"], tk[0]["stride"], tk[0]["index"], msg),
+                            dict(conv=[tk[0], tk[1], tk[2]], problem=msg), cls="mdconvert %s->%s: %s" % (tk[1], tk[2], msg.split(" frames ")[0][:60]))
     samples = [dict(format=t[0], sigkill=t[2], behaviour=t[1]) for t in tasks[:: max(1, len(tasks) // 3)][:3]]
     def _nontrivial(t):
         ops = [x["op"] for x in t[1]["hist"]]
@@ -300,7 +404,7 @@ def run(ctx):
                rule="cases = (format, terminal behaviour of Writer.tla, kill mode), enumerated by TLC (all behaviours within the bounds; a stratified "
                     "sample per format in the quick tier); non-trivial = at least two writes, or a refused (ragged) write, or a crash point, or a "
                     "close+reopen-append; distinct = different (format, kill mode, operation history)",
-               traces_validated_against_impl=len(tasks), replays_failing=nfail, emitted_behaviours=emitted,
+               traces_validated_against_impl=len(tasks) + n_conv, mdconvert_runs=n_conv, replays_failing=nfail, emitted_behaviours=emitted,
                crash_runs=sum(1 for t in tasks if t[1]["status"] == "crashed"), sigkill_runs=sum(1 for t in tasks if t[2]),
                formats=sorted(FORMATS), MaxFrames=mf, MaxWrite=mw, samples=samples,
                explanation="every terminal behaviour (ordered partition of the frames into writes x one ragged write of each kind x "
